@@ -21,7 +21,8 @@ extern int vp_verbose;                              /* set by --only / -v: drive
 extern int vp_thorough;
 void vp_fail (const char *kind, const char *fmt, ...) __attribute__ ((format (printf, 2, 3)));
 void vp_count (const char *key, uint64_t n);        /* additive counter, survives a crash of the shard */
-void vp_max (const char *key, uint64_t n);          /* max counter */
+void vp_max (const char *key, uint64_t n);
+uint64_t vp_get (const char *key);                 /* current value of an additive counter (persists across shard restarts) */          /* max counter */
 void vp_outcome (uint64_t h);                       /* distinct-outcome / distinct-state set */
 void vp_nontrivial (void);                          /* current case is non-trivial by the driver's rule */
 void vp_sample (const char *fmt, ...) __attribute__ ((format (printf, 1, 2))); /* keep first few as evidence samples */
